@@ -28,6 +28,29 @@ func (s *heapSubj[T]) SetScribble(b bool) { s.scribble = b }
 
 func newHeapSubj[T comparable](cfg Cfg, d *Dom[T]) *heapSubj[T] {
 	s := &heapSubj[T]{cfg: cfg, d: d}
+	if cfg.Ctor == "default" {
+		var zero T
+		var hp, q any
+		switch any(zero).(type) {
+		case int:
+			hp, q = binaryheap.New[int](), priorityqueue.New[int]()
+		case string:
+			hp, q = binaryheap.New[string](), priorityqueue.New[string]()
+		}
+		if h, ok := hp.(*binaryheap.Heap[T]); ok && cfg.Kind == "binaryheap" {
+			s.c, s.push, s.pop = h, h.Push, h.Pop
+			return s
+		}
+		if qq, ok := q.(*priorityqueue.Queue[T]); ok && cfg.Kind == "priorityqueue" {
+			s.c, s.pop = qq, qq.Dequeue
+			s.push = func(vs ...T) {
+				for _, v := range vs {
+					qq.Enqueue(v)
+				}
+			}
+			return s
+		}
+	}
 	switch cfg.Kind {
 	case "binaryheap":
 		h := binaryheap.NewWith[T](d.Cmp)
@@ -137,6 +160,8 @@ func (s *heapSubj[T]) ModelApply(op Op) {
 	case "Peek":
 	case "Clear":
 		s.m = nil
+	case "Fill":
+		s.m = append(slices.Clone(s.m), s.vals(heapFill(op.A))...)
 	case "FromJSON":
 		if xs, ok := refDecodeSlice[T](op.B); ok {
 			s.m = xs
@@ -178,6 +203,9 @@ func (s *heapSubj[T]) Step(op Op, o *Oracle) {
 	case "Clear":
 		s.c.Clear()
 		s.m = nil
+	case "Fill":
+		s.push(s.vals(heapFill(op.A))...)
+		s.m = append(slices.Clone(s.m), s.vals(heapFill(op.A))...)
 	case "FromJSON":
 		// C06 names "successful FromJSON" in its statement: after a successful load the heap must
 		// hold exactly the loaded multiset and keep yielding minima.
@@ -342,7 +370,9 @@ func (s *heapSubj[T]) CheckLoaded(o *Oracle, tag string) {
 	}
 }
 
-// Drain returns the pop sequence modulo the comparator (ties are one class).
+// Drain returns the pop sequence with full element identity: C11's "the same subsequent Pop/Dequeue
+// sequence" is read literally (the heap's ToJSON is its raw layout, so a reloaded heap pops in exactly
+// the same order, ties included).
 func (s *heapSubj[T]) Drain() string {
 	var out []T
 	for i := 0; i <= hostileMaxSize*64; i++ {
@@ -353,7 +383,7 @@ func (s *heapSubj[T]) Drain() string {
 		out = append(out, v)
 	}
 	s.m = nil
-	return joinS(out, s.d.Class) + " multiset=" + s.sortedClasses(out)
+	return joinS(out, s.d.Str)
 }
 
 var heapReads = []string{"Peek", "Peek", "Size", "Empty", "Values", "String", "ToJSON", "MarshalJSON", "Walk", "WalkBack", "NextTo", "Sorted"}
@@ -439,4 +469,14 @@ func (s *heapSubj[T]) CheckNow(o *Oracle) {
 	o.Sparse = false
 	s.check(o)
 	o.Sparse = sp
+}
+
+// heapFill bounds a bulk prefill at 200 elements: BinaryHeap.Values() re-sorts a whole level per element
+// (about n^2 log n comparator calls), so larger heaps would only measure that cost (DESIGN.md, C17).
+func heapFill(a []int) []int {
+	idx := fillIdx(a)
+	if len(idx) > 200 {
+		idx = idx[:200]
+	}
+	return idx
 }
